@@ -145,7 +145,6 @@ func isSeqSet(s imap.NumSet) bool {
 
 //@ func (dec *Decoder) ExpectNumSet(kind NumKind, ptr *imap.NumSet) (result bool)
 //@   modifies ptr
-//@   requires ptr != nil
 //@   ensures !result ==> dec.err != nil
 //@   ensures result && kind == NumKindUID ==> isUIDSet(*ptr)
 
@@ -326,7 +325,6 @@ var (
 //@ func (dec *Decoder) Number(ptr *uint32) (result bool)
 //@   props C01:post,pre@call
 //@   modifies ptr
-//@   requires ptr != nil
 //@   ensures result ==> __resultBool("Decoder.numberStr", 1) && uint64(*ptr) == __decval(__resultStr("Decoder.numberStr", 0))
 //@   ensures __resultBool("Decoder.numberStr", 1) && __decval(__resultStr("Decoder.numberStr", 0)) <= 0xFFFFFFFF ==> result
 //@   ensures !result ==> *ptr == old(*ptr)
@@ -334,14 +332,12 @@ var (
 //@ func (dec *Decoder) ModSeq(ptr *uint64) (result bool)
 //@   props C01:post,pre@call
 //@   modifies ptr
-//@   requires ptr != nil
 //@   ensures result ==> __resultBool("Decoder.numberStr", 1) && *ptr == __decval(__resultStr("Decoder.numberStr", 0))
 //@   ensures __resultBool("Decoder.numberStr", 1) && __decval(__resultStr("Decoder.numberStr", 0)) <= 0xFFFFFFFFFFFFFFFF ==> result
 
 //@ func (dec *Decoder) Number64(ptr *int64) (result bool)
 //@   props C01:post,pre@call
 //@   modifies ptr
-//@   requires ptr != nil
 //@   ensures result ==> __resultBool("Decoder.numberStr", 1) && *ptr >= 0 && uint64(*ptr) == __decval(__resultStr("Decoder.numberStr", 0))
 //@   ensures __resultBool("Decoder.numberStr", 1) && __decval(__resultStr("Decoder.numberStr", 0)) <= 0x7FFFFFFFFFFFFFFF ==> result
 
